@@ -69,6 +69,8 @@ var ghost struct {
 
 	ioKey1, ioKey2 string // what the latest and the one-before-latest (Attr).Key call returned (C07)
 
+	ioColor int // 1 while a colour switched on by echoColor / echoBgColor / echoColorAndBg has not been reset (C06)
+
 	ioKeyed int // 1 once the key of the attribute serializeAttrs is printing has been written (C05)
 
 	ioSeq int // the sources of attributes collectArgs has consulted so far, as decimal digits in call order: 1 context, 2 logger chain, 3 call arguments (C07)
@@ -2265,7 +2267,7 @@ func specTellable(m LogWriter) bool {
 //@   ensures [C01.emits] ghost.emits >= old(ghost.emits)
 
 //@ func (*Entry).printImpl
-//@   props C02 C09 C13
+//@   props C02 C06 C09 C13
 //@   requires s != nil && defaultWriter != nil && isnil(s.handlerOpt) && ghost.trN >= 0 && specFmtInv(s) && 0 <= s.extraFrames && s.extraFrames <= 1048576 && pc != nil && pc.off == 0 && 0 <= len(pc.buf)
 //@   requires [INV-dw] forall(k, 0, len(specDest(s, pc.lvl)), !isnil(specDest(s, pc.lvl)[k]) && !typeis(specDest(s, pc.lvl)[k], LWs) && implies(typeis(specDest(s, pc.lvl)[k], *logwr), dyn(specDest(s, pc.lvl)[k], *logwr) != nil && !typeis(dyn(specDest(s, pc.lvl)[k], *logwr).Writer, *logwr) && !typeis(dyn(specDest(s, pc.lvl)[k], *logwr).Writer, LWs)))
 //@   requires [INV-dw.warn] forall(k, 0, len(specDest(s, WarnLevel)), !isnil(specDest(s, WarnLevel)[k]) && !typeis(specDest(s, WarnLevel)[k], LWs) && implies(typeis(specDest(s, WarnLevel)[k], *logwr), dyn(specDest(s, WarnLevel)[k], *logwr) != nil && !typeis(dyn(specDest(s, WarnLevel)[k], *logwr).Writer, *logwr) && !typeis(dyn(specDest(s, WarnLevel)[k], *logwr).Writer, LWs)))
@@ -2277,6 +2279,8 @@ func specTellable(m LogWriter) bool {
 //@   effect ghost.split = 0
 //@   at call (*Entry).printFirstLineOfMsg effect ghost.split = 1
 //@   at call (*Entry).printRestLinesOfMsg assert [C09.defined] pc.noColor || ghost.split == 1
+//@   at call (*Entry).printRestLinesOfMsg assert [C06.reset-before-break] pc.noColor || ghost.ioColor == 0
+//@   at call (*PrintCtx).End assert [C06.reset-at-end] pc.noColor || ghost.ioColor == 0
 //@   ensures [C02.deliver] ghost.trN >= old(ghost.trN) + old(len(specDest(s, pc.lvl)))
 //@   ensures [C02.appendonly] forall(k, 0, old(ghost.trN), ghost.trace[k] == old(ghost.trace[k]) && ghost.trTold[k] == old(ghost.trTold[k]))
 //@   ensures [C13.algebra] ghost.records - old(ghost.records) == 1 + ite(old(specAdmits(s.level, WarnLevel)), ghost.warns - old(ghost.warns), 0) && ghost.warns >= old(ghost.warns) && ghost.warns <= old(ghost.warns) + 1
@@ -2324,9 +2328,10 @@ func specTellable(m LogWriter) bool {
 
 // (hand-written: the attribute serializer and the value switch carry C07/C09 clauses)
 //@ func serializeAttrs
-//@   props C02 C05 C07 C09
+//@   props C02 C05 C06 C07 C09
+//@   ensures [C06.attrs-reset] pc.noColor || ghost.ioColor == 0
 //@   auto
-//@   nokeeps PrintCtx.prefix, PrintCtx.inGroupedMode, ghost.ioKeyed
+//@   nokeeps PrintCtx.prefix, PrintCtx.inGroupedMode, ghost.ioKeyed, ghost.ioColor
 //@   keeps PrintCtx.prefix except pc
 //@   keeps PrintCtx.inGroupedMode except pc
 //@   requires [C09.ungrouped] !pc.inGroupedMode
@@ -2341,7 +2346,7 @@ func specTellable(m LogWriter) bool {
 //@ func (*PrintCtx).appendValue
 //@   props C02 C09
 //@   auto
-//@   nokeeps PrintCtx.prefix, PrintCtx.inGroupedMode, ghost.ioKeyed
+//@   nokeeps PrintCtx.prefix, PrintCtx.inGroupedMode, ghost.ioKeyed, ghost.ioColor
 //@   keeps PrintCtx.prefix except s
 //@   keeps PrintCtx.inGroupedMode except s
 //@   requires [C09.ungrouped] !s.inGroupedMode
@@ -2426,7 +2431,7 @@ func specTellable(m LogWriter) bool {
 //@ func (*kvp).SerializeValueTo
 //@   props C02 C09
 //@   auto
-//@   nokeeps PrintCtx.prefix, PrintCtx.inGroupedMode, ghost.ioKeyed
+//@   nokeeps PrintCtx.prefix, PrintCtx.inGroupedMode, ghost.ioKeyed, ghost.ioColor
 //@   keeps PrintCtx.prefix except pc
 //@   keeps PrintCtx.inGroupedMode except pc
 //@   ensures [C09.ungrouped] !pc.inGroupedMode
@@ -2435,7 +2440,7 @@ func specTellable(m LogWriter) bool {
 //@   props C02 C07 C09
 //@   at call serializeAttrs assert [C07.group-sorted] callee.pc == pc && callee.kvps == s.items
 //@   auto
-//@   nokeeps PrintCtx.prefix, PrintCtx.inGroupedMode, ghost.ioKeyed
+//@   nokeeps PrintCtx.prefix, PrintCtx.inGroupedMode, ghost.ioKeyed, ghost.ioColor
 //@   keeps PrintCtx.prefix except pc
 //@   keeps PrintCtx.inGroupedMode except pc
 //@   requires [C09.ungrouped] !pc.inGroupedMode
@@ -2445,7 +2450,7 @@ func specTellable(m LogWriter) bool {
 //@   props C02 C07 C09
 //@   at call serializeAttrs assert [C07.group-sorted] callee.pc == pc && callee.kvps == s
 //@   auto
-//@   nokeeps PrintCtx.prefix, PrintCtx.inGroupedMode, ghost.ioKeyed
+//@   nokeeps PrintCtx.prefix, PrintCtx.inGroupedMode, ghost.ioKeyed, ghost.ioColor
 //@   keeps PrintCtx.prefix except pc
 //@   keeps PrintCtx.inGroupedMode except pc
 //@   requires [C09.ungrouped] !pc.inGroupedMode
@@ -2472,12 +2477,9 @@ func specTellable(m LogWriter) bool {
 
 
 
+
 // ---- generated by /verif/tools/gen_auto.py: synthesized contracts for the no-panic sweep of printImpl's call tree
 //@ func convertLevelToLogSlog
-//@   props C02
-//@   auto
-
-//@ func (*Entry).printTimestamp
 //@   props C02
 //@   auto
 
@@ -2486,10 +2488,6 @@ func specTellable(m LogWriter) bool {
 //@   auto
 
 //@ func (*PrintCtx).pcAppendComma
-//@   props C02
-//@   auto
-
-//@ func (colorizeToolS).echoColor
 //@   props C02
 //@   auto
 
@@ -2513,10 +2511,6 @@ func specTellable(m LogWriter) bool {
 //@   props C02
 //@   auto
 
-//@ func (colorizeToolS).echoColorAndBg
-//@   props C02
-//@   auto
-
 //@ func (*PrintCtx).appendTime
 //@   props C02
 //@   auto
@@ -2526,10 +2520,6 @@ func specTellable(m LogWriter) bool {
 //@   auto
 
 //@ func (*PrintCtx).appendTimeSlice
-//@   props C02
-//@   auto
-
-//@ func (*PrintCtx).appendError
 //@   props C02
 //@   auto
 
@@ -2670,14 +2660,6 @@ func specTellable(m LogWriter) bool {
 //@   auto
 
 //@ func (colorizeToolS).wrapColorAndBg
-//@   props C02
-//@   auto
-
-//@ func (colorizeToolS).echoBgColor
-//@   props C02
-//@   auto
-
-//@ func (*Entry).printPC
 //@   props C02
 //@   auto
 
